@@ -156,7 +156,7 @@ class Monitor(tasking.Tasker):
                     self.desire = ABORT
                     self.status = ABORTED
                     console.profuse("     Aborting Monitor {0}, bad control = {1}\n".format(
-                        self.name,  CommandNames[control]))
+                        self.name,  ControlNames.get(control, 'Unknown')))
 
                     self.close()
                     break #break out of while loop. this will cause stopIteration
@@ -268,7 +268,7 @@ class MonitorOut(Monitor):
             else: #control == unknown error condition bad control
                 self.status = ABORTED
                 console.profuse("Aborting Monitor {0}, bad control = {1}\n".format(
-                    self.name,  CommandNames[control]))
+                    self.name,  ControlNames.get(control, 'Unknown')))
 
                 self.server.close()
                 self.console.close() #close file descriptor to console
